@@ -42,7 +42,9 @@ theorem walkF_seq {s : St} (w : WF s) {o : Bool} : ∀ (B A : List Nat) (fuel : 
       have ht : t ∈ s.seq o := by rw [h]; simp
       have ht0 : t ≠ 0 := by have := (w.ids o t ht).1; omega
       show walkF s (f + 1) t = _
-      rw [walkF, if_neg ht0, List.map_cons, nextOf_at w h, ih (A ++ [t]) f (by rw [h]; simp) (by simpa using hf)]
+      have hv : valueOf s t = (s.heap t).val := by
+        unfold valueOf; rw [if_neg]; have := (w.ids o t ht).1; omega
+      rw [walkF, if_neg ht0, hv, List.map_cons, nextOf_at w h, ih (A ++ [t]) f (by rw [h]; simp) (by simpa using hf)]
 
 theorem walkIds_seq {s : St} (w : WF s) {o : Bool} : ∀ (B A : List Nat) (fuel : Nat), s.seq o = A ++ B →
     B.length ≤ fuel → walkIds s fuel (B.head?.getD 0) = B := by
@@ -73,7 +75,9 @@ theorem walkB_seq {s : St} (w : WF s) {o : Bool} : ∀ (rA B : List Nat) (fuel :
       have ht : t ∈ s.seq o := by rw [h']; simp
       have ht0 : t ≠ 0 := by have := (w.ids o t ht).1; omega
       show walkB s (f + 1) t = _
-      rw [walkB, if_neg ht0, List.map_cons, prevOf_at w h', List.getLast?_reverse, ih (t :: B) f h' (by simpa using hf)]
+      have hv : valueOf s t = (s.heap t).val := by
+        unfold valueOf; rw [if_neg]; have := (w.ids o t ht).1; omega
+      rw [walkB, if_neg ht0, hv, List.map_cons, prevOf_at w h', List.getLast?_reverse, ih (t :: B) f h' (by simpa using hf)]
 
 theorem values_eq {s : St} (w : WF s) (l : Bool) : values s l = (s.seq l).map fun e => (s.heap e).val := by
   unfold values
